@@ -210,8 +210,8 @@ static void rhumb_values(const Rhumb& r, double lat1, double lon1, double azi, d
         double l2 = SENT[0], o2 = SENT[1], S2 = SENT[7]; r.Line(lat1, lon1, azi).GenPosition(s12, om2, l2, o2, S2);
         auto chk = [&](double v, double rf, double sent, const char* n) { if (bits(v) != bits(sent) && !same(v, rf)) bad("value-depends-on-mask", std::string("Rhumb ") + n + " depends on the mask (selection " + std::to_string(sel) + (un ? "+unroll)" : ")")); };
         chk(l, rl, SENT[0], "lat2"); chk(o, ro, SENT[1], "lon2"); chk(S, rS, SENT[7], "S12"); chk(l2, rl, SENT[0], "line lat2"); chk(o2, ro, SENT[1], "line lon2"); chk(S2, rS, SENT[7], "line S12");
-        if (((sel & 1) != 0) != (bits(l) != bits(SENT[0])) || ((sel & 2) != 0) != (bits(o) != bits(SENT[1])) || ((sel & 4) != 0) != (bits(S) != bits(SENT[7]))) bad("written-set", "Rhumb::GenDirect wrote an unrequested output or skipped a requested one");
-        if (((sel & 1) != 0) != (bits(l2) != bits(SENT[0])) || ((sel & 2) != 0) != (bits(o2) != bits(SENT[1])) || ((sel & 4) != 0) != (bits(S2) != bits(SENT[7]))) bad("written-set", "RhumbLine::GenPosition wrote an unrequested output or skipped a requested one");
+        if (((sel & 1) != 0) != (bits(l) != bits(SENT[0])) || ((sel & 2) != 0) != (bits(o) != bits(SENT[1])) || ((sel & 4) != 0) != (bits(S) != bits(SENT[7]))) bad("written-set", "Rhumb.GenDirect wrote an unrequested output or skipped a requested one");
+        if (((sel & 1) != 0) != (bits(l2) != bits(SENT[0])) || ((sel & 2) != 0) != (bits(o2) != bits(SENT[1])) || ((sel & 4) != 0) != (bits(S2) != bits(SENT[7]))) bad("written-set", "RhumbLine.GenPosition wrote an unrequested output or skipped a requested one");
       }
     }
   }
@@ -225,9 +225,9 @@ static void rhumb_inverse_values(const Rhumb& r, double lat1, double lon1, doubl
   for (unsigned sel = 0; sel < 32; ++sel) {
     unsigned om = (sel & 1 ? fl[0] : 0) | (sel & 2 ? fl[1] : 0) | (sel & 4 ? fl[2] : 0) | (sel & 8 ? fl[3] : 0) | (sel & 16 ? (Rhumb::LATITUDE | Rhumb::LONGITUDE | (1u << 11) | (1u << 12) | (1u << 13)) : 0u);
     double s = SENT[3], az = SENT[2], S = SENT[7]; r.GenInverse(lat1, lon1, lat2, lon2, om, s, az, S);
-    auto chk = [&](double v, double rf, double sent, const char* n) { if (bits(v) != bits(sent) && !same(v, rf)) bad("value-depends-on-mask", std::string("Rhumb::GenInverse ") + n + " depends on the mask (selection " + std::to_string(sel) + ")"); };
+    auto chk = [&](double v, double rf, double sent, const char* n) { if (bits(v) != bits(sent) && !same(v, rf)) bad("value-depends-on-mask", std::string("Rhumb.GenInverse ") + n + " depends on the mask (selection " + std::to_string(sel) + ")"); };
     chk(s, rs, SENT[3], "s12"); chk(az, ra, SENT[2], "azi12"); chk(S, rS, SENT[7], "S12");
-    if (((sel & 1) != 0) != (bits(s) != bits(SENT[3])) || ((sel & 2) != 0) != (bits(az) != bits(SENT[2])) || ((sel & 4) != 0) != (bits(S) != bits(SENT[7]))) bad("written-set", "Rhumb::GenInverse wrote an unrequested output or skipped a requested one");
+    if (((sel & 1) != 0) != (bits(s) != bits(SENT[3])) || ((sel & 2) != 0) != (bits(az) != bits(SENT[2])) || ((sel & 4) != 0) != (bits(S) != bits(SENT[7]))) bad("written-set", "Rhumb.GenInverse wrote an unrequested output or skipped a requested one");
   }
 }
 static Reg r_vals("maskvalues", [](const Args& a) {
@@ -321,7 +321,7 @@ static void rhumb_overloads(OvlCtx& c, const Rhumb& r, double lat1, double lon1,
   { Outs o, q; l.Position(s12, o.v[0], o.v[1], o.v[7]); l.GenPosition(s12, RhumbLine::LATITUDE | RhumbLine::LONGITUDE | RhumbLine::AREA, q.v[0], q.v[1], q.v[7]); cmp("RhumbLine.Position(lat2,lon2,S12)", o, q, sLAT | sLON | sA); }
   { Outs o, q; l.Position(s12, o.v[0], o.v[1]); l.GenPosition(s12, RhumbLine::LATITUDE | RhumbLine::LONGITUDE, q.v[0], q.v[1], q.v[7]); cmp("RhumbLine.Position(lat2,lon2)", o, q, sLAT | sLON); }
   // Direct and RhumbLine::Position are the same computation
-  { Outs o, q; r.Direct(lat1, lon1, azi, s12, o.v[0], o.v[1], o.v[7]); l.Position(s12, q.v[0], q.v[1], q.v[7]); for (int i = 0; i < 8; ++i) if (!same(o.v[i], q.v[i])) bad("overload", "Rhumb::Direct and RhumbLine::Position differ"); }
+  { Outs o, q; r.Direct(lat1, lon1, azi, s12, o.v[0], o.v[1], o.v[7]); l.Position(s12, q.v[0], q.v[1], q.v[7]); for (int i = 0; i < 8; ++i) if (!same(o.v[i], q.v[i])) bad("overload", "Rhumb.Direct and RhumbLine.Position differ"); }
 }
 static Reg r_ovl("ovl", [](const Args& a) {
   double lat1 = unhx(a[1]), lon1 = unhx(a[2]), azi1 = unhx(a[3]), s12 = unhx(a[4]), a12 = unhx(a[5]), lat2 = unhx(a[6]), lon2 = unhx(a[7]); unsigned caps = unsigned(std::stoul(a[8]));
